@@ -32,8 +32,25 @@ def exact_int_text(t):
     return int(f) if f.denominator == 1 else None
 
 
+def routes_of(o):
+    """the observation of the canonicalisation function, then those of the other public routes to the canonical
+    encoding (the executor lists them only when one differs from the first)"""
+    yield "Json::canonicalize", o
+    for name, r in sorted((o.get("routes") or {}).items()):
+        yield name, r
+
+
 def judge_value(v, texts, outs, res, tag):
     """all spellings of v must give the reference encoding, which parses back to v"""
+    for name, sel in (("Json::canonicalize", None), ("Json::to_writer", "Json::to_writer"), ("JsonPretty::canonicalize", "JsonPretty::canonicalize"),
+                      ("Json::canonicalize(Json::serialize)", "Json::canonicalize(Json::serialize)")):
+        sub = [o if sel is None else o["routes"][sel] for o in outs if sel is None or "routes" in o]
+        subt = [t for t, o in zip(texts, outs) if sel is None or "routes" in o]
+        if sub:
+            _judge_value(v, subt, sub, res, tag if sel is None else tag + ":" + name)
+
+
+def _judge_value(v, texts, outs, res, tag):
     ref = jg.ref_canon(v)
     for t, o in zip(texts, outs):
         case = {"op": "canon", "texts": [t], "meta": {"kind": "value"}}
@@ -90,19 +107,25 @@ def _numbers(v):
 
 
 def judge_reject(t, o, res):
-    if "ok" in o:
-        res.violate("canon-accepts-non-integer",
-                    f"a value containing a non-integer number was canonicalised to {o['ok']!r}",
-                    {"op": "canon", "texts": [t], "meta": {"kind": "reject"}}, o, "error")
+    for name, r in routes_of(o):
+        if "ok" in r:
+            res.violate("canon-accepts-non-integer" + ("" if name == "Json::canonicalize" else ":" + name),
+                        f"a value containing a non-integer number was canonicalised to {r['ok']!r} by {name}",
+                        {"op": "canon", "texts": [t], "meta": {"kind": "reject"}}, o, "error")
 
 
 def judge_exact(t, o, res):
+    for name, r in routes_of(o):
+        _judge_exact(t, r, res, name)
+
+
+def _judge_exact(t, o, res, name):
     if "ok" in o:
         # find the number in the text (the text is a bare number)
         exact = exact_int_text(t)
         if exact is None or o["ok"] != str(exact):
-            res.violate("canon-rounds-number",
-                        f"number {t} was rendered as {o['ok']!r} (neither exact nor rejected)",
+            res.violate("canon-rounds-number" + ("" if name == "Json::canonicalize" else ":" + name),
+                        f"number {t} was rendered as {o['ok']!r} by {name} (neither exact nor rejected)",
                         {"op": "canon", "texts": [t], "meta": {"kind": "exact_or_reject"}}, o,
                         "exact decimal or error")
 
@@ -135,6 +158,7 @@ def shard_random(binpath, seed, shard, nvalues, nspell):
         res.note(v, nontrivial, cls=["value:" + type(v).__name__], n=len(ts))
         if len({json.dumps(o, sort_keys=True) for o in os_}) > 1:
             res.classes["spellings_disagree"] += 1
+        res.classes["four_public_routes_agree"] += sum(1 for o in os_ if "routes" not in o)
         judge_value(v, ts, os_, res, "random")
         if shard == 0:
             res.sample({"value": v, "spellings": ts[:3], "canonical": os_[0].get("ok")}, cap=3)
@@ -169,6 +193,9 @@ def unicode_sweep(binpath, res, full):
         r = o["res"]
         for v, out, t in ((arr, r[0], c["texts"][0]), (obj, r[1], c["texts"][1]), (arr, r[2], c["texts"][2])):
             ref = jg.ref_canon(v)
+            if "routes" in out:
+                res.violate("canon-routes-disagree", "the public routes to the canonical encoding disagree on a one-character string/key block",
+                            {"op": "canon", "texts": [t], "meta": {"kind": "value"}}, {k: str(r)[:120] for k, r in out["routes"].items()}, ref[:200])
             if out.get("ok") != ref:
                 # narrow down to the offending character
                 bad = None
@@ -249,8 +276,9 @@ def main(ctx):
              "spellings each (member order, whitespace, escape spelling); non-trivial = non-empty string/array/object "
              "value, distinct by SHA-256 of the value; plus the complete one-character Unicode sweep and the "
              "number rejection classes",
-        assumptions=["Python json.dumps(sort_keys, ensure_ascii=False, separators) is the reference encoder",
+        assumptions=["routes compared: Json::canonicalize, Json::to_writer, JsonPretty::canonicalize, Json::canonicalize of Json::serialize",
+                     "Python json.dumps(sort_keys, ensure_ascii=False, separators) is the reference encoder",
                      "serde_json is the parser that defines 'the same value' for a spelling"],
-        required=["value:dict", "value:list", "value:str", "value:int", "non_integer_rejected", "value_after_rejected_document",
+        required=["four_public_routes_agree", "value:dict", "value:list", "value:str", "value:int", "non_integer_rejected", "value_after_rejected_document",
                   "unicode_scalars_as_string_and_key"],
         min_evals=10000)
